@@ -41,6 +41,9 @@ func init() {
 			"a waiter of a coalesced dial can leave through its own context and (context provenance) does not receive the dialling subscriber's cancellation; a connection unregisters only itself and an empty connection is closed; " +
 			"the closed flag of an idle connection is flipped atomically with the admission test of subscribe and a refused admission is retried instead of returned. It does not decide message order, idle-period timing or conns→0 over histories.",
 		Mutants: []Mutant{
+			{Name: "ping stamped after the write returned (reverts the F38 fix)", File: "v2/pkg/engine/datasource/graphql_datasource/subscriptionclient/transport/ws_conn.go", Rule: "C18-R12", Key: "wsConnection.sendPing/ping-stamped-before-write",
+				Old: "\tprevious := c.lastPingSentAt.Swap(time.Now().UnixNano())\n\tif err := pinger.Ping(pingCtx, c.conn); err != nil {\n\t\tc.lastPingSentAt.Store(previous)\n\t\treturn err\n\t}\n\treturn nil\n",
+				New: "\tif err := pinger.Ping(pingCtx, c.conn); err != nil {\n\t\treturn err\n\t}\n\tc.lastPingSentAt.Store(time.Now().UnixNano())\n\treturn nil\n"},
 			{Name: "subscribe returns the subscriber's context error without the idle check (reverts the F37 fix)", File: "v2/pkg/engine/datasource/graphql_datasource/subscriptionclient/transport/ws_conn.go", Rule: "C18-R11", Key: "wsConnection.subscribe/error-exit-runs-idle-check",
 				Old: "\t\tc.removeSub(id)\n\t\treturn nil, err\n\t}\n\n\tc.subsMu.Lock()\n", New: "\t\treturn nil, err\n\t}\n\n\tc.subsMu.Lock()\n"},
 			{Name: "legacy protocol reports a cancelled dialler as ack timeout (seeded change C18-22)", File: "v2/pkg/engine/datasource/graphql_datasource/subscriptionclient/protocol/graphql_ws.go", Rule: "C18-R10", Key: "graphqlWS.Init/ack-timeout-only-on-deadline",
@@ -103,6 +106,7 @@ func init() {
 func runC18(r *fw.Run) {
 	defer c18SharedWritesUnderConnectionContext(r)
 	defer c18AckTimeoutOnlyOnDeadline(r)
+	defer c18PingStampedBeforeWrite(r)
 	defer c18SubscribeExitsRunIdleCheck(r)
 	p := r.Prog
 	for _, a := range []string{c18T, c18P, c18C} {
@@ -1997,4 +2001,38 @@ func c18SubscribeExitsRunIdleCheck(r *fw.Run) {
 	}
 	in.Run(nil)
 	r.Expect("C18-R11", "error exits of wsConnection.subscribe", n, 4)
+}
+
+// c18PingStampedBeforeWrite (R12): a connection is declared dead when lastPongAt < lastPingSentAt and the ping timeout has
+// passed. The pong of a healthy upstream can be processed by the read loop before the goroutine that wrote the ping
+// resumes; if that goroutine stamps lastPingSentAt only after the write returned, the stamp is later than the pong that
+// answered it, the pong looks overdue at the next tick (ping interval > ping timeout is the default shape) and a healthy
+// connection with all its subscriptions is torn down. The stamp must happen before the write: every call of
+// Pinger.Ping in package transport is dominated by a write (Store / Swap) of lastPingSentAt.
+func c18PingStampedBeforeWrite(r *fw.Run) {
+	p := r.Prog
+	r.Rule("C18-R12", "every Pinger.Ping on a wsConnection is dominated by the write of lastPingSentAt (the ping is stamped before it is written, so a pong can never be older than the ping it answers)")
+	n := 0
+	for _, fi := range p.Funcs(c18T) {
+		info := fi.Info()
+		in := fw.NewInterp(fi)
+		in.H = fw.Hooks{Node: func(nd ast.Node, st *fw.State) {
+			c, ok := nd.(*ast.CallExpr)
+			if !ok {
+				return
+			}
+			for _, m := range []string{"Store", "Swap"} {
+				if cc, isM := fw.AtomicFieldCall(info, c, c18T, "wsConnection", "lastPingSentAt", m); isM && cc == c {
+					st.Set("stamped")
+				}
+			}
+			if in.Final() && fw.CallIs(info, c, c18P, "Pinger.Ping") {
+				n++
+				r.Check(st.Must("stamped"), "C18-R12", fi.Name()+"/ping-stamped-before-write", p.Pos(c.Pos()), "lastPingSentAt is written before the ping is written in "+fi.Name(),
+					"the ping is stamped after the write returned: a pong that the read loop processes before this goroutine resumes is older than the stamp, so the answered ping looks unanswered — with the default ping interval > ping timeout the next tick closes a healthy connection and ends every subscription multiplexed on it")
+			}
+		}}
+		in.Run(nil)
+	}
+	r.Expect("C18-R12", "Pinger.Ping calls in package transport", n, 1)
 }
